@@ -1,7 +1,7 @@
 (* C02 — main theorems, for every shape passing [check_shape], then for the generated shape. *)
 From Coq Require Import ZArith List Bool Lia Arith.
 From QF Require Import Conc.ShapeLang Conc.SendConc Conc.ConcSpec Conc.ConcInv1 Conc.ConcStep1 Conc.ConcStep2
-  Conc.ConcInv3 Conc.ConcStep3 Conc.ConcStep4 Gen.SendShape.
+  Conc.ConcInv3 Conc.ConcStep3 Conc.ConcStep4 Conc.ConcStep5 Gen.SendShape.
 Import ListNotations.
 Open Scope Z_scope.
 
@@ -57,20 +57,70 @@ Theorem c02_replay_of_shape sh persist logged room sess apps sched s :
   c02_replay_excl (c_trace (c_sh s)).
 Proof.
   intros Hsh Hs Ha Hc Hr.
-  assert (I : cinv_all s /\ cinv4 s).
-  { eapply (crun_inv (fun s => cinv_all s /\ cinv4 s) sh); [| |exact Hr].
-    - intros s0 t ch s1 [J1 J4] Hst. split; [eapply cstep_inv_all; eauto|].
-      destruct J1 as (K1 & K2 & K3). eapply cstep_inv4; eauto.
-    - split; [split; [apply cinit_inv1; auto|split; [apply cinit_inv2|apply cinit_inv3]]|apply cinit_inv4; auto]. }
-  destruct I as (_ & _ & _ & _ & inres & seen & Hrs & _). unfold c02_replay_excl. rewrite Hrs. discriminate.
+  assert (I : cinv_all s /\ cinv4 s /\ cinv4b s).
+  { eapply (crun_inv (fun s => cinv_all s /\ cinv4 s /\ cinv4b s) sh); [| |exact Hr].
+    - intros s0 t ch s1 (J1 & J4 & J4b) Hst. split; [eapply cstep_inv_all; eauto|].
+      destruct J1 as (K1 & K2 & K3). split; [eapply cstep_inv4; eauto|eapply cstep_inv4b; eauto].
+    - split; [split; [apply cinit_inv1; auto|split; [apply cinit_inv2|apply cinit_inv3]]|split; [apply cinit_inv4; auto|apply cinit_inv4b]]. }
+  destruct I as (_ & (_ & _ & _ & inres & seen & Hrs & _) & _). unfold c02_replay_excl. rewrite Hrs. discriminate.
+Qed.
+
+(* Clause (6), safety form: right after a sendQueued that could send everything (connected; blocking, or the channel
+   has room for the whole queue), every number consumed since the last reset is on the wire — provided no non-empty
+   queue was dropped since that reset. *)
+Theorem c02_flush_complete_of_shape sh persist logged open room sess apps sched s t ch s' l b rest :
+  check_shape sh = true -> forallb cop_ok sess = true -> cmsgs_ok apps = true ->
+  creach sh (cinit persist logged open room sess apps) sched s ->
+  cthr s t l -> th_pc l = SFlush b :: rest -> cstep sh s t ch = Some s' ->
+  c_open (c_sh s) = true -> (b = true \/ (length (c_q (c_sh s)) <= c_room (c_sh s))%nat) ->
+  c02_no_drop (c_trace (c_sh s')) ->
+  forall n, In n (c02_epoch_assigned (c_trace (c_sh s'))) -> In n (c02_epoch_firsts (c_trace (c_sh s'))).
+Proof.
+  intros Hsh Hs Ha Hr Hl Hpc Hst Hopen Hroom Hnd n Hn.
+  assert (I : cinv_all s /\ cinv5 s).
+  { eapply (crun_inv (fun s => cinv_all s /\ cinv5 s) sh); [| |exact Hr].
+    - intros s0 t0 ch0 s1 [J1 J5] Hst0. split; [eapply cstep_inv_all; eauto|].
+      destruct J1 as (K1 & K2 & K3). eapply cstep_inv5; eauto.
+    - split; [split; [apply cinit_inv1; auto|split; [apply cinit_inv2|apply cinit_inv3]]|apply cinit_inv5]. }
+  destruct I as ((I1 & I2 & I3) & I5).
+  assert (I5' : cinv5 s') by (eapply cstep_inv5; eauto).
+  pose proof I1 as (G & Ls & Own). pose proof (Ls t l Hl) as L.
+  (* the step *)
+  unfold cstep in Hst. unfold cthr in Hl. rewrite Hl, Hpc in Hst. cbn in Hst. inversion Hst; subst s'; clear Hst.
+  pose proof (l1_safe _ _ _ L) as Hsafe. rewrite Hpc in Hsafe.
+  destruct (csafe_atom (SFlush b) rest _ _ eq_refl Hsafe) as (a' & Hap & _ & Hgh).
+  destruct (caprim_flush_inv _ _ _ Hap) as (P1 & P2 & P3 & P4).
+  assert (Hhs : a_hs (th_a l) = true).
+  { cbn in Hap. destruct (a_hs (th_a l)); [reflexivity|discriminate Hap]. }
+  assert (Hq : c_q (cflush (c_sh s) b) = []).
+  { unfold cflush. rewrite Hopen. cbn. destruct b; cbn; [reflexivity|].
+    destruct Hroom as [Hb|Hb]; [discriminate|]. rewrite Nat.min_r by exact Hb. apply skipn_all. }
+  destruct (I5' Hnd n Hn) as [H|[[id H]|(u & lu & H1 & H2 & H3)]].
+  - exact H.
+  - cbn in H. rewrite Hq in H. destruct H.
+  - exfalso. unfold cthr in H1. cbn in H1. destruct (Nat.eq_dec t u) as [->|Hne].
+    + rewrite (cupd_nth_eq _ _ _ _ Hl) in H1. inversion H1; subst lu. cbn in H2. rewrite Hgh in H2. congruence.
+    + rewrite (cupd_nth_ne _ _ _ _ Hne) in H1.
+      assert (Hc : cph_crit (a_ph (th_a lu)) = true) by (rewrite H2; reflexivity).
+      pose proof (ccrit_owner s u lu I1 H1 Hc) as Ho. apply (l1_hs _ _ _ L) in Hhs. congruence.
 Qed.
 
 (* ---------- the generated shape ---------- *)
 Lemma shape_ok : check_shape gen_send_shape = true.
 Proof. vm_compute. reflexivity. Qed.
 
-(* the unlocked store.Reset() of handleLogon is NOT well shaped *)
-Lemma shape_logon_not_ok : centry_ok false false (sh_logon gen_send_shape) = false.
+(* handleLogon's generated program passes the shape check: the operation OLogon is the real handleLogon *)
+Lemma shape_logon_ok : clogon_ok gen_send_shape = true.
+Proof. vm_compute. reflexivity. Qed.
+
+(* handleLogon as it stood before the repair (6f0521d): `if resetStore { s.store.Reset() }` with no lock held.
+   The regression example below is about this program, whatever the translator produces for handleLogon. *)
+Definition c02_unlocked_logon : list cstmt := [SIf COther [SStoreReset] []].
+Definition cshape_unlocked (sh : cshape) : cshape :=
+  {| sh_queue := sh_queue sh; sh_send := sh_send sh; sh_dropsend := sh_dropsend sh; sh_dropreset := sh_dropreset sh;
+     sh_flush := sh_flush sh; sh_resend := sh_resend sh; sh_enqueue := sh_enqueue sh; sh_logon := c02_unlocked_logon;
+     sh_leaf := sh_leaf sh |}.
+Lemma c02_unlocked_logon_rejected : centry_ok false false c02_unlocked_logon = false.
 Proof. vm_compute. reflexivity. Qed.
 
 Theorem c02_numbering_gen persist logged open room sess apps sched s :
@@ -88,17 +138,26 @@ Theorem c02_replay_gen persist logged room sess apps sched s :
   c02_replay_excl (c_trace (c_sh s)).
 Proof. intros. eapply c02_replay_of_shape; eauto. apply shape_ok. Qed.
 
-(* ---------- refutation of the unrestricted statement: handleLogon resets the store without sendMutex ---------- *)
+Theorem c02_flush_complete_gen persist logged open room sess apps sched s t ch s' l b rest :
+  forallb cop_ok sess = true -> cmsgs_ok apps = true ->
+  creach gen_send_shape (cinit persist logged open room sess apps) sched s ->
+  cthr s t l -> th_pc l = SFlush b :: rest -> cstep gen_send_shape s t ch = Some s' ->
+  c_open (c_sh s) = true -> (b = true \/ (length (c_q (c_sh s)) <= c_room (c_sh s))%nat) ->
+  c02_no_drop (c_trace (c_sh s')) ->
+  forall n, In n (c02_epoch_assigned (c_trace (c_sh s'))) -> In n (c02_epoch_firsts (c_trace (c_sh s'))).
+Proof. intros. eapply c02_flush_complete_of_shape; eauto. apply shape_ok. Qed.
+
+(* ---------- regression: with the unlocked reset of the old handleLogon the statement fails ---------- *)
 Definition c02_refute_sess : list cop := [OLogonResetUnlocked].
 Definition c02_refute_apps : list (list cmsg) := [[MApp false; MApp false]].
 Definition c02_refute_sched : list (nat * bool) :=
   map (fun t => (t, true))
       (repeat 1%nat 14 ++ repeat 1%nat 4 ++ repeat 0%nat 3 ++ repeat 1%nat 6).
 
-Lemma c02_numbering_refuted :
+Lemma c02_unlocked_reset_breaks_numbering :
   exists sess apps sched s,
     cmsgs_ok apps = true /\
-    creach gen_send_shape (cinit true true true 8 sess apps) sched s /\
+    creach (cshape_unlocked gen_send_shape) (cinit true true true 8 sess apps) sched s /\
     c02_consec_b 1 (c_trace (c_sh s)) = false /\
     Z.eqb (c_snd (c_sh s)) (c02_expected 1 (c_trace (c_sh s))) = false.
 Proof.
@@ -112,11 +171,14 @@ Definition c02_ex_apps : list (list cmsg) := [[MApp false; MApp false]; [MApp tr
 Definition c02_ex_sched : list (nat * bool) :=
   map (fun t => (t, false)) [1; 2; 0; 1; 2; 0; 0; 0; 0; 1; 0; 1; 0; 1; 0; 1; 1; 1; 1; 1; 1; 1; 1; 2; 1; 2; 1; 2; 1; 2; 2; 2; 1; 2; 1; 2; 1; 2; 1; 1; 1; 1; 1; 1; 1; 1; 2; 1; 2; 2; 2; 2; 2; 2; 2; 2; 2; 2; 2; 0; 0; 0; 0; 0; 0; 0; 0; 0; 0; 0; 0; 0; 0; 0; 0; 0; 0; 0; 0; 0; 0; 0; 0; 0; 0; 0; 0; 0; 0; 0; 0; 0; 0; 0; 0; 0; 0; 0; 0; 0; 0; 0; 0; 0; 0; 0; 0; 0; 0; 0; 0; 0; 0; 0; 0; 0; 0; 0; 0; 0; 0; 0]%nat.
 
+(* the schedule is executable to the end (the match is on Some) and produces this trace *)
 Lemma c02_example_run :
-  exists s, forallb cop_ok c02_ex_sess = true /\ cmsgs_ok c02_ex_apps = true /\ forallb cop_conn c02_ex_sess = true /\
-    creach gen_send_shape (cinit true true true 100 c02_ex_sess c02_ex_apps) c02_ex_sched s /\
-    rev (c_trace (c_sh s)) =
+  forallb cop_ok c02_ex_sess = true /\ cmsgs_ok c02_ex_apps = true /\ forallb cop_conn c02_ex_sess = true /\
+  match crun gen_send_shape (cinit true true true 100 c02_ex_sess c02_ex_apps) c02_ex_sched with
+  | Some s => rev (c_trace (c_sh s))
+  | None => []
+  end =
       [EvAssign 1; EvSaved 1 0; EvAssign 2; EvSaved 2 1; EvAssign 3; EvSaved 3 2; EvAssign 4; EvSaved 4 3;
        EvWire (IFirst 1 0); EvWire (IFirst 2 1); EvWire (IFirst 3 2); EvWire (IFirst 4 3);
        EvResendBegin; EvWire (IReplay 1 0); EvWire (IReplay 2 1); EvWire (IReplay 3 2); EvResendEnd].
-Proof. eexists. repeat split; try reflexivity. vm_compute. reflexivity. Qed.
+Proof. split; [reflexivity|]. split; [reflexivity|]. split; [reflexivity|]. vm_compute. reflexivity. Qed.
